@@ -14,11 +14,12 @@ def jobs(tier):
     for major in (0, 1, 7):
         for n in (1, 2, 3, 5, 9) if tier == 'quick' else (1, 2, 3, 4, 5, 6, 8, 9):
             add('item_m%d_n%d' % (major, n), 'h_item_scalar', ['C07'], 10, dict(MAJOR=major, N=n, WINFO=(27 if n >= 9 else 26 if n >= 5 else 25 if n >= 3 else (20 if major == 7 else 24 if n >= 2 else 0))), 900, 'read_item vs RFC 8949 reference decoder: value, kind, consumed bytes; reserved info 28-30 / 31 and truncation rejected; no wrapped negative', 'major %d, every additional-information value, every following byte, input length %d' % (major, n))
-    add('rt_u64', 'h_rt_u64', ['C06'], 10, {}, 900, 'decode(encode(uint64)) == value, shortest head', 'all 2^64 values')
-    add('rt_i64', 'h_rt_i64', ['C06'], 10, {}, 900, 'decode(encode(int64)) == value, shortest head', 'all 2^64 values')
-    add('rt_double', 'h_rt_double', ['C06'], 10, {}, 900, 'decode(encode(double)) bit for bit (NaN as NaN), float32 chosen only when exact', 'all 2^64 bit patterns')
-    add('rt_simple', 'h_rt_simple', ['C06'], 10, {}, 300, 'bool/null round trip', 'false,true,null')
-    add('rt_half', 'h_rt_half', ['C06'], 10, {}, 300, 'half round trip bit for bit', 'all 65536 patterns')
+    if tier == 'thorough':   # encoder o full parser in one harness: > 15 min per job (the composition encoder->reference decoder (enc kernel) + parser==reference decoder (item_* jobs) carries the quick tier)
+     add('rt_u64', 'h_rt_u64', ['C06'], 10, {}, 900, 'decode(encode(uint64)) == value, shortest head', 'all 2^64 values')
+     add('rt_i64', 'h_rt_i64', ['C06'], 10, {}, 900, 'decode(encode(int64)) == value, shortest head', 'all 2^64 values')
+     add('rt_double', 'h_rt_double', ['C06'], 10, {}, 900, 'decode(encode(double)) bit for bit (NaN as NaN), float32 chosen only when exact', 'all 2^64 bit patterns')
+     add('rt_simple', 'h_rt_simple', ['C06'], 10, {}, 300, 'bool/null round trip', 'false,true,null')
+     add('rt_half', 'h_rt_half', ['C06'], 10, {}, 300, 'half round trip bit for bit', 'all 65536 patterns')
     add('head', 'h_head', ['C06', 'C08'], 10, {}, 600, 'write_type_and_length: well-formed, denotes (major,length), shortest', 'all majors x all 2^64 lengths')
     add('min_stringref', 'h_min_stringref', ['C06'], 4, {}, 300, 'min_length_for_stringref == stringref spec table', 'all 2^64 indices')
     return J
